@@ -785,8 +785,47 @@ class Normalizer:
                 return a
             return ratom(self.atoms.intern(("inset", t[1], t[2], a, b)))
         if k == "sumfam":
-            return ratom(self.atoms.intern(("sumfam", t[1], self.rf(t[2]))))
+            return self._sumfam(t[1], self.rf(t[2]))
         raise AnalysisError(f"cannot normalise non-scalar term {k}: {fmt(t)}")
+
+    # --- sums over families are linear: member-independent factors move out
+    def _member_dependent(self, a: int) -> bool:
+        d = self.desc(a)
+        if d[0] == "sym":
+            key = d[1]
+            if key[0] == "s":
+                role = key[1].rpartition(".")[0]
+                return role.endswith("*") or role == "mu"
+            if key[0] == "sa":
+                return str(key[2]).endswith("*") or str(key[2]) == "mu"
+            return False
+        if d[0] == "inf":
+            return False
+        for x in d[1:]:
+            if isinstance(x, RF):
+                if any(self._member_dependent(b) for b in x.atoms()):
+                    return True
+            elif isinstance(x, tuple):
+                for y in x:
+                    if isinstance(y, RF) and any(self._member_dependent(b) for b in y.atoms()):
+                        return True
+        return False
+
+    def _sumfam(self, domain, body: RF) -> RF:
+        dep = {a: self._member_dependent(a) for a in body.atoms()}
+        if any(dep.get(a) for m in body.den for a, _ in m):
+            return ratom(self.atoms.intern(("sumfam", domain, body)))
+        groups: dict = {}
+        for m, c in body.num.items():
+            dm = tuple((a, e) for a, e in m if dep[a])
+            im = tuple((a, e) for a, e in m if not dep[a])
+            groups.setdefault(dm, {})
+            groups[dm][im] = groups[dm].get(im, 0) + c
+        total = RF({})
+        for dm, poly in groups.items():
+            atom = ratom(self.atoms.intern(("sumfam", domain, RF({dm: Fraction(1)}))))
+            total = total + RF(poly) * atom
+        return total / RF(dict(body.den))
 
     def _minmax(self, k, args) -> RF:
         flat = []
